@@ -727,6 +727,6 @@ func init() {
 			"one case in seven instead is a flapping scenario (flapping(0.1, 0.6), default history, 25-70 points in phases of unrest and calm): a point certainly inside a flapping episode must produce no event, one certainly outside must produce its event, for every Nagios-style weighting; non-trivial = the model expects at least one event; distinct = distinct (scenario, interleaving signature) pairs",
 		Real:        []string{"AlertNode (determineLevel, alertState.Point/BufferedBatch, addEvent/triggered/updateExpired/updateFlapping, augment*)", "services/alert Service.Collect, alert.Topics, bufHandler", "WindowNode (batch form), FromNode, LogNode, TaskMaster, httpd write endpoint", "tick/stateful (threshold lambdas)"},
 		Stub:        []string{"recording alert.Handler registered on the alert's topic through the real service", "log sink below the alert node"},
-		Assumptions: []string{"the reference model is written from the documentation in pipeline/alert.go (its worked reset example is reproduced by the generator's value set)", "the batch form is modelled for plain thresholds only; flapping is only checked through the metamorphic law 'thresholds that can never trigger change nothing'", "missing or wrong-typed fields are not generated here (C05 covers them)"},
+		Assumptions: []string{"the reference model is written from the documentation in pipeline/alert.go (its worked reset example is reproduced by the generator's value set)", "in the batch form the alert's state moves once per batch: every point of a batch is held back by the reset condition of the level the ID had when the batch arrived; the batch form's stateChangesOnly interval is not generated", "flapping is checked through the law 'thresholds that can never trigger change nothing' and through a scenario whose reference only concludes what holds for every Nagios-style weighting", "wrong-typed fields are not generated here (C05 covers them); a condition over a field the point does not carry does not hold"},
 	})
 }
